@@ -17,7 +17,132 @@ import subprocess
 
 from . import common as c
 
-COQ_MODEL_TARGETS = ["Trie/Radix.vo", "Trie/MerkleHash.vo", "Trie/Persist.vo"]
+COQ_MODEL_TARGETS = ["Trie/Radix.vo", "Trie/MerkleHash.vo", "Trie/Persist.vo", "Trie/CacheStatusProofs.vo"]
+
+STATUS_PRE = ("From Coq Require Import NArith List.\n"
+              "From CB Require Import Trie.Radix Trie.Canon Trie.MerkleHash Trie.Persist Trie.CacheStatus "
+              "Trie.CacheStatusProofs.\nImport ListNotations.\nLocal Open Scope N_scope.\n")
+SOP = {"S": "SoStore", "L": "SoLoad", "C": "SoCache", "X": "SoMigrate", "Z": "SoSerial"}
+STATUS_THEOREMS = ("status_machine_refines / cache_and_load_preserve / store_update_settles_status / "
+                   "second_store_update_writes_nothing / status_invariant (the status machine s_step of CacheStatus.v); "
+                   "the CachedRef statuses of the implementation (hook verif_status_census) disagree with the model or with "
+                   "the property evaluated directly on the implementation")
+
+
+def status_expr(items, ops):
+    kv = []
+    for it in items:
+        k, v = it.split(":")
+        b, n = v.split("*")
+        kb = "; ".join(str(x) for x in bytes.fromhex(k))
+        kv.append("(nib [%s], repeat %s %s)" % (kb, b, n))
+    return ("map (fun x => (cens_list (fst x), snd x)) (s_run toy_sha_c [%s] (mkS empty_store "
+            "(option_map s_of_tree (canon [%s]))))" % ("; ".join(SOP[o] for o in ops), "; ".join(kv)))
+
+
+def status_correspondence(ctx, binp, n):
+    """CachedRef status census of the implementation after every persistence operation vs. the Coq status machine."""
+    rc, out = c.run_bin(binp, ["status", ctx.seed, n], timeout=900)
+    if rc != 0:
+        ctx.violation({"layer": "harness status run", "output": out[-2000:]}, "status run: harness crashed", no_input=True)
+        return {}
+    cases, res, stats, panics = {}, {}, {}, {}
+    order = []
+    for l in out.split("\n"):
+        if l.startswith("K "):
+            t = l.split(" ", 2)
+            cases[t[1]] = t[2]
+            order.append(t[1])
+        elif l.startswith("R "):
+            t = l.split(" ", 2)
+            res[t[1]] = t[2] if len(t) > 2 else ""
+        elif l.startswith("O "):
+            t = l.split(" ", 2)
+            panics[t[1]] = t[2] if len(t) > 2 else ""
+        elif l.startswith("S "):
+            stats = json.loads(l[2:])
+    exprs, ids = [], []
+    for hid in order:
+        items, ops = cases[hid].rsplit(";", 1)
+        if "M" in ops:
+            continue
+        exprs.append(status_expr([i for i in items.split(",") if i], ops))
+        ids.append(hid)
+    model = {}
+    try:
+        terms = c.coq_eval(ctx, "status", STATUS_PRE, exprs, shard=max(10, len(exprs) // 12 + 1), timeout=900)
+        for hid, t in zip(ids, terms):
+            model[hid] = "|".join(",".join(str(x) for x in list(cl) + [ln]) for cl, ln in t)
+    except Exception as e:
+        ctx.violation({"layer": "evaluation of the Coq status machine (s_run)", "error": repr(e)[-1500:]},
+                      "status run: the model could not be evaluated", no_input=True)
+        return stats
+    nbad = 0
+    compared = 0
+    for hid in order:
+        impl = res.get(hid)
+        problems = []
+        if impl is None:
+            problems.append("no-impl-output")
+        else:
+            if "!" in impl or "PANIC" in impl:
+                problems.append("impl-oracle")
+            if hid in model:
+                compared += 1
+                if model[hid] != impl:
+                    problems.append("impl!=model")
+        key = c.digest("K" + cases[hid])
+        ctx._seen.add(key)
+        if impl and "PANIC" not in impl:
+            ctx._distinct.add(key)
+        if not problems:
+            continue
+        nbad += 1
+        if nbad > 2:
+            continue
+        summary = ("CachedRef status census: %s; case %s: implementation -> %s; model -> %s%s" % (
+            "/".join(problems), cases[hid][:300], (impl or "")[:400], model.get(hid, "(not modelled: contains M)")[:400],
+            ("; panic: " + panics[hid][:200]) if hid in panics else ""))
+        ctx.violation({"tag": "K", "id": hid, "case": cases[hid], "implementation": impl, "model": model.get(hid),
+                       "theorem": STATUS_THEOREMS,
+                       "how_to_replay": "c04 status <seed> <n> regenerates the case (seed %s, case %s); census = "
+                                        "nodes Disk,Memory,Cached, values Disk,Memory,Cached,inline, store length" % (ctx.seed, hid)},
+                      summary[:1500])
+    nops = sum(len(cases[h].rsplit(";", 1)[1]) for h in order)
+    ctx.cov["evaluations"] += nops
+    ctx.cov["traces_validated_against_impl"] += compared
+    ctx.cov["distinct_nontrivial"] = len(ctx._distinct)
+    for hid in order[:2]:
+        ctx.cov["samples"].append({"status_case": cases[hid][:300], "implementation": (res.get(hid) or "")[:300]})
+    stats = dict(stats)
+    stats.update({"cases": len(order), "compared_with_model": compared, "mismatching": nbad})
+    return stats
+
+
+def path_tag_boundary(ctx, obs):
+    """write_node_path_and_value_tag (hook verif_path_tag) vs. the model's path_tag up to the u32 boundary; what the code
+    does above it is recorded (design/C04.md: observation O-C04-1)."""
+    pt = obs.get("path_tag")
+    if not pt:
+        ctx.violation({"layer": "directed cases", "missing": "path_tag"}, "directed case path_tag did not run", no_input=True)
+        return
+    keys = sorted(pt.keys(), key=lambda k: (int(k.split(":")[0]), k))
+    inr = [k for k in keys if int(k.split(":")[0]) < 2 ** 32]
+    exprs = ["path_tag %s %s" % (k.split(":")[0], "true" if k.endswith(":1") else "false") for k in inr]
+    terms = c.coq_eval(ctx, "pathtag", STATUS_PRE, exprs, shard=len(exprs))
+    for k, t in zip(inr, terms):
+        m = bytes(t).hex()
+        if m != pt[k]:
+            ctx.violation({"case": "write_node_path_and_value_tag(stem_len=%s, has_value=%s)" % tuple(k.split(":")),
+                           "implementation": pt[k], "model": m, "theorem": "node_record_roundtrip (path_tag / dec_path)"},
+                          "stem length tag: implementation writes %s, model %s for stem_len:has_value = %s" % (pt[k], m, k))
+    over = {k: pt[k] for k in keys if int(k.split(":")[0]) >= 2 ** 32}
+    ctx.notes["stem_length_boundary"] = {
+        "bound": "stems < 2^32 nibbles = inserted keys <= 2^31-1 bytes (key_bound_is_u32_stem)",
+        "at_2^32-1": {k: pt[k] for k in inr if k.startswith("4294967295:")},
+        "over_the_boundary (stem_len as u32 wraps silently; unreachable for keys <= 2^31-1 bytes)": over}
+
+
 
 
 def parse_lines(out):
@@ -331,7 +456,15 @@ def run(ctx):
         "differential correspondence (hash, collected bytes, contents, store / serialised / migrated bytes) only",
         "store_load_roundtrip / modified_state_store_roundtrip assume well-formed stems of the frozen tree (nibbles < 16, "
         "stem length < 2^32: tree_ok) and a store below 2^64 bytes; serialize_deserialize_roundtrip assumes stems, values and "
-        "node count below 2^32 (the widths of the format)",
+        "node count below 2^32 (the widths of the format); the *_reachable versions derive all of this for every state "
+        "reachable by operations of the machine c_step whose INSERTED keys are byte strings of at most 2^31-1 bytes "
+        "(= stems < 2^32 nibbles, what `stem_len as u32` can encode) and whose values are shorter than 2^32 bytes; they "
+        "keep only the resource bounds (store < 2^64 bytes, node count < 2^32)",
+        "CachedRef statuses: the status machine (CacheStatus.v) keeps the contents also below a Disk link (ghost = what "
+        "the store holds, by `consistent`); it covers the persistence operations on a frozen state (store_update, "
+        "load_from_location, cache, migrate, serialize+deserialize); statuses across thaw/modify/freeze are checked on the "
+        "implementation directly only (after store_update nothing below the root is Memory; a repeated store_update writes "
+        "the root and top record only)",
         "backing store = in-memory Vec<u8> (BackingStoreStore for Vec<u8>, Loader<&[u8]>); file/OS behaviour, "
         "the FFI store/load callbacks and concurrent use are out of scope",
         "the `slab` crate is replaced by a functional shim with the same LIFO key reuse",
@@ -386,6 +519,12 @@ def run(ctx):
             except Exception:
                 pass
     ctx.notes["directed"] = obs
+    try:
+        path_tag_boundary(ctx, obs)
+    except Exception as e:
+        ctx.violation({"layer": "path_tag boundary", "error": repr(e)[-800:]}, "path_tag boundary check failed to run",
+                      no_input=True)
+    ctx.notes["status_distribution"] = status_correspondence(ctx, binp, 400 if ctx.quick else 6000)
     q = obs.get("refreeze")
     if rc != 0 or not q:
         ctx.violation({"layer": "directed cases", "output": out[-1500:]}, "directed cases did not run", no_input=True)
@@ -421,7 +560,15 @@ def run(ctx):
         "history ends with a freeze, half of them with one more persistence operation and freeze; at every freeze the "
         "harness rebuilds the same contents through two other histories (from_iterator over a random permutation; a noisy "
         "history with junk keys, overwritten values, a rolled-back generation and a store/reload in the middle) and "
-        "compares hashes; non-trivial = at least one freeze of a non-empty state; distinct = distinct operation list")
+        "compares hashes; non-trivial = at least one freeze of a non-empty state; distinct = distinct operation list. "
+        "STATUS run: states of 1-7 keys from the same key universe (keys cut to 12 bytes; values one byte repeated 0-5, 63, 64, "
+        "65, 70 times) built by from_iterator, then 3-10 operations from store_update 40% / store_update+load 20% / cache 20% "
+        "/ migrate 10% / serialize+deserialize 10% (a quarter of the cases also thaw+modify one key+freeze: direct oracles "
+        "only); after every operation the census of CachedRef statuses (node links Disk/Memory/Cached, indirect values "
+        "Disk/Memory/Cached, inline values; hook verif_status_census) and the store length are compared with the Coq status "
+        "machine s_run; direct oracles: !SETTLED (after store_update at most the root is Memory, no value Memory), !REWRITE "
+        "(store_update of a settled state appends the root record and the top record only), !NOTCACHED, !SOURCESTATUS "
+        "(migrate / serialize leave the source statuses), !READCHANGES (hash / iteration / lookup change no status), !HASH")
     if proof_broken:
         found = any(not ni for _, _, ni in ctx.violations)
         ctx.violation({"layer": "Coq proof obligations", "broken": proof_broken},
